@@ -617,6 +617,76 @@ Proof.
   repeat split; try reflexivity; left; reflexivity.
 Qed.
 
+(* ---------- finding D20: log retention by acknowledged sequence number alone ---------- *)
+(* A flush with a queued memtable rotates the log and writes the queued table only: the writes in
+   the active memtable live in memory and in the closed log file.  Retention with every write
+   acknowledged by the replicas deletes that file; the next process stop loses an acknowledged,
+   synced write (q = wal_next: nothing of the newest file is cut). *)
+Module C02_retention.
+  Definition c0 := mkCfg 40 5.
+  Definition big : bytes := [1;2;3;4;5;6;7;8;9;10;11;12].
+  (* the first put fills the memtable and queues it; [3] is in the active table when the flush runs *)
+  Definition prog : list op := [OPut [1] big; OPut [2] [20]; OPut [3] [30]; OFlush].
+End C02_retention.
+
+Theorem C02_retention_refuted : exists c ops acked k v,
+  let s := run c ops in
+  acked <= wal_next s /\
+  lost_log s = false /\
+  get s k = Some v /\
+  get (retain acked s) k = Some v /\
+  lost_log (recover (crash (retain acked s) (wal_next s))) = false /\
+  get (recover (crash (retain acked s) (wal_next s))) k = None.
+Proof.
+  exists C02_retention.c0, C02_retention.prog, 4, [3], [30]. vm_compute.
+  repeat split; try reflexivity; discriminate.
+Qed.
+
+(* retention never touches the current file, and keeps everything when nothing is acknowledged *)
+Lemma retain_zero : forall s, retain 0 s = s.
+Proof. reflexivity. Qed.
+
+Lemma retain_last : forall acked s, wal_files s <> [] ->
+  last (wal_files (retain acked s)) [] = last (wal_files s) [].
+Proof.
+  intros acked s Hne. unfold retain. destruct (acked =? 0); [reflexivity|].
+  simpl. destruct (rev (wal_files s)) as [|cur older] eqn:E.
+  - apply (f_equal (@rev _)) in E. rewrite rev_involutive in E. simpl in E. congruence.
+  - rewrite last_last. apply (f_equal (@rev _)) in E. rewrite rev_involutive in E. simpl in E.
+    rewrite E. rewrite last_last. reflexivity.
+Qed.
+
+(* a file is deleted only if all its entries are numbered below the acknowledged number *)
+Lemma fold_max_ge_init : forall (f : list wentry) m, m <= fold_left (fun m e => N.max m (w_seq e)) f m.
+Proof.
+  induction f as [|y f IH]; intros m; simpl; [lia|].
+  etransitivity; [|apply IH]. lia.
+Qed.
+
+Lemma file_max_ge : forall f m e, In e f -> w_seq e <= fold_left (fun m e => N.max m (w_seq e)) f m.
+Proof.
+  induction f as [|x f IH]; intros m e H; [destruct H|]. simpl. destruct H as [->|H].
+  - etransitivity; [|apply fold_max_ge_init]. lia.
+  - apply IH. exact H.
+Qed.
+
+Lemma retain_drops_only_acked : forall acked s f e,
+  In f (wal_files s) -> ~ In f (wal_files (retain acked s)) -> In e f -> w_seq e < acked.
+Proof.
+  intros acked s f e Hf Hn He. unfold retain in Hn. destruct (acked =? 0) eqn:Ez; [contradiction|].
+  simpl in Hn. destruct (rev (wal_files s)) as [|cur older] eqn:E.
+  - apply (f_equal (@rev _)) in E. rewrite rev_involutive in E. simpl in E. rewrite E in Hf. destruct Hf.
+  - assert (Hf' : In f (rev (cur :: older))) by (rewrite <- E, rev_involutive; exact Hf).
+    simpl in Hf'. apply in_app_or in Hf'. destruct Hf' as [Hf'|[<-|[]]].
+    + assert (Hk : retention_keeps acked f = false).
+      { destruct (retention_keeps acked f) eqn:K; [|reflexivity]. exfalso. apply Hn.
+        apply in_or_app. left. rewrite <- in_rev. apply filter_In. split; [rewrite in_rev; exact Hf'|exact K]. }
+      unfold retention_keeps in Hk. destruct f as [|x f]; [discriminate|].
+      apply Bool.negb_false_iff, N.ltb_lt in Hk.
+      pose proof (file_max_ge (x :: f) 0 e He). unfold file_max in Hk. lia.
+    + exfalso. apply Hn. apply in_or_app. right. left. reflexivity.
+Qed.
+
 (* ------------------------------------------------------------------------------------ *)
 (* Part I: C03 — transactions                                                              *)
 (* ------------------------------------------------------------------------------------ *)
